@@ -4,6 +4,8 @@
 P="$1"; PATCH="$2"; TIER="${3:-quick}"
 cd /verif
 R="${SEED_REPO:-/repo}"
+# one seeded run at a time per tree
+exec 9>/tmp/seedrepo.lock; flock 9
 if [ "$R" != "/repo" ]; then export ZV_HARNESS_DIR=/verif/tgt/fix/h ZV_TARGET_DIR=/verif/tgt/fix/target; fi
 if [ -n "$(git -C $R status --porcelain --untracked-files=no)" ]; then echo "$R is dirty"; exit 2; fi
 git -C $R apply "$PATCH" || { echo "patch does not apply to $R"; exit 2; }
